@@ -398,13 +398,29 @@ def check(res, tier, seed):
                     monitor_hits += 1
                     res.violation("inforremotes", "a call in flight inside the ForRemotes callback when the transport failed (%s): %s" % (r["config"], c["err"] or "returned a nil error without a response"),
                                   dict(kind="sys", family="inforremotes", config=r["config"], seed=r["seed"], call=c, notes=r.get("notes")))
-    if pid in ("C03", "C16"):
+    if pid == "C03":
+        from . import sys_props
+        qrecs, qrc, qout = C.run_job(binary, wd, "closureend", dict(family="sys", seed=seed, n=(12 if tier == "quick" else 240), cases=["closureend"]), timeout=600)
+        fam["closureend(black-box)"] = len(qrecs)
+        for r in qrecs:
+            vs = sys_props.mon_closureend(r)
+            if vs:
+                monitor_hits += 1
+                res.violation("closureend", "implementation violates C03: %s" % vs[0], dict(kind="sys", family="closureend", config=r["config"], seed=r["seed"], all=vs[:6]))
+    if pid in ("C03", "C16", "C05"):
         # black box: a read fails with an error value panrpc uses as a signal elsewhere; a stuck response write
         from . import sys_props
         lrecs, lrc, lout = C.run_job(binary, wd, "linkend", dict(family="sys", seed=seed, n=(39 if tier == "quick" else 390), cases=["linkend"]), timeout=900)
         fam["linkend(black-box)"] = len(lrecs)
+        if lrc != 0 and pid == "C05":
+            monitor_hits += 1
+            line = next((l for l in lout.splitlines() if l.startswith("panic:") or "fatal error" in l), (lout.strip().splitlines() or ["?"])[-1])
+            res.violation("linkend-crash", "the process died in a link-ending scenario (last completed: %s): %s" % (lrecs[-1]["config"] if lrecs else "none", line[:300]),
+                          dict(kind="sys", family="linkend", output=lout[-3000:]))
         for r in lrecs:
-            if pid == "C03":
+            if pid == "C05":
+                vs = []
+            elif pid == "C03":
                 vs = sys_props.mon_linkend(r)
             else:
                 vs = []
